@@ -1,4 +1,4 @@
-module spike
+module verifharness
 
 go 1.22
 
